@@ -122,6 +122,8 @@ def _unflatten_slots(ctx, ci: ClassInfo, children: List, aux: List) -> Dict[str,
     if not (isinstance(c.func, ast.Name) and c.func.id == cls_name):
         raise AnalysisError(f"{ci.qualname}.tree_unflatten: does not call cls(...)")
     fields = [f.name for f in ctx.p.dataclass_fields(ci.qualname)]
+    # straight-line locals of the body:  a, b, c = aux_data   /   x = aux_data[0]
+    local: Dict[str, Optional[str]] = {}
 
     def seq(node) -> Optional[List[Optional[str]]]:
         if isinstance(node, ast.Name):
@@ -146,6 +148,8 @@ def _unflatten_slots(ctx, ci: ClassInfo, children: List, aux: List) -> Dict[str,
         return None
 
     def elem(node) -> Optional[str]:
+        if isinstance(node, ast.Name) and node.id in local:
+            return local[node.id]
         if isinstance(node, ast.Subscript):
             base = seq(node.value)
             if base is not None and isinstance(node.slice, ast.Constant) and isinstance(
@@ -155,10 +159,37 @@ def _unflatten_slots(ctx, ci: ClassInfo, children: List, aux: List) -> Dict[str,
                     return base[i]
         return None
 
+    for st in un.real_body():
+        if isinstance(st, ast.Assign) and len(st.targets) == 1:
+            tg = st.targets[0]
+            if isinstance(tg, (ast.Tuple, ast.List)) and all(isinstance(e, ast.Name) for e in tg.elts):
+                src = seq(st.value)
+                if src is None or len(src) != len(tg.elts):
+                    raise AnalysisError(f"{ci.qualname}.tree_unflatten: unmodelled unpacking {ast.unparse(st)}")
+                for e, v in zip(tg.elts, src):
+                    local[e.id] = v
+            elif isinstance(tg, ast.Name):
+                local[tg.id] = elem(st.value)
+
+    def composite(attr: Optional[str]) -> Optional[List[Optional[str]]]:
+        """a flattened attribute that __post_init__ defines as a tuple of fields: self.shape = (self.l_y, self.l_x)"""
+        post = ci.methods.get("__post_init__")
+        if attr is None or post is None:
+            return None
+        found = None
+        for st in post.real_body():
+            if isinstance(st, ast.Assign) and len(st.targets) == 1 and _self_attr(st.targets[0]) == attr:
+                found = st.value
+        if isinstance(found, ast.Tuple):
+            return [_self_attr(e) for e in found.elts]
+        return None
+
     args: List[Optional[str]] = []
     for a in c.args:
         if isinstance(a, ast.Starred):
             s = seq(a.value)
+            if s is None and isinstance(a.value, ast.Name) and a.value.id in local:
+                s = composite(local[a.value.id])
             if s is None:
                 raise AnalysisError(f"{ci.qualname}.tree_unflatten: unmodelled *{ast.unparse(a.value)}")
             args.extend(s)
@@ -337,6 +368,56 @@ def _linear_form(node: ast.AST, base: str, env: Dict[str, Mono]) -> Optional[Dic
     return None
 
 
+def _row_major_extents(it: ast.AST) -> Optional[List[Mono]]:
+    if not isinstance(it, ast.Call):
+        return None
+    fn = dotted(it.func) or ""
+    if fn.endswith("ndindex"):
+        args = it.args[0].elts if len(it.args) == 1 and isinstance(it.args[0], ast.Tuple) else it.args
+        ext = [_mono(a, {}) for a in args]
+        return None if any(e is None for e in ext) or not ext else ext
+    if fn.endswith("product") and it.args and not it.keywords:
+        ext = []
+        for a in it.args:
+            if not (isinstance(a, ast.Call) and dotted(a.func) == "range" and len(a.args) == 1):
+                return None
+            ext.append(_mono(a.args[0], {}))
+        return None if any(e is None for e in ext) else ext
+    return None
+
+
+def _is_identity_of(elt: ast.AST, var: str) -> bool:
+    """pos, tuple(pos), tuple(int(c) for c in pos), tuple(map(int, pos))"""
+    if isinstance(elt, ast.Name):
+        return elt.id == var
+    if isinstance(elt, ast.Call) and dotted(elt.func) == "tuple" and len(elt.args) == 1:
+        a = elt.args[0]
+        if isinstance(a, ast.Name):
+            return a.id == var
+        if isinstance(a, (ast.GeneratorExp, ast.ListComp)) and len(a.generators) == 1 and not a.generators[0].ifs:
+            g = a.generators[0]
+            if isinstance(g.iter, ast.Name) and g.iter.id == var and isinstance(g.target, ast.Name):
+                e = a.elt
+                if isinstance(e, ast.Name) and e.id == g.target.id:
+                    return True
+                return isinstance(e, ast.Call) and dotted(e.func) == "int" and len(e.args) == 1 and \
+                    isinstance(e.args[0], ast.Name) and e.args[0].id == g.target.id
+        if isinstance(a, ast.Call) and dotted(a.func) == "map" and len(a.args) == 2 and dotted(a.args[0]) == "int":
+            return isinstance(a.args[1], ast.Name) and a.args[1].id == var
+    return False
+
+
+def _row_major_comps(ext: List[Mono]):
+    """component k of a row-major enumeration of extents: floor((i mod D_{k-1}) / D_k), D_k = prod(ext[k+1:])"""
+    comps = []
+    for k in range(len(ext)):
+        D: Mono = tuple(sorted(sum((list(e) for e in ext[k + 1:]), [])))
+        M: Optional[Mono] = None if k == 0 else tuple(sorted(list(ext[k]) + list(D)))
+        comps.append((M, D))
+    total: Mono = tuple(sorted(sum((list(e) for e in ext), [])))
+    return comps, total
+
+
 def _sites_decode(ci: ClassInfo):
     """Find `self.sites = tuple([ (c0, c1, ..) for i in range(N) ])` in __post_init__."""
     post = ci.methods.get("__post_init__")
@@ -356,6 +437,14 @@ def _sites_decode(ci: ClassInfo):
                         comps = [_decode(e, g.target.id) for e in elt.elts]
                         total = _mono(g.iter.args[0], {})
                         return comps, total, st.lineno
+                # row-major enumeration: for pos in np.ndindex(A, B, C) / itertools.product(range(A), range(B), ..)
+                ext = _row_major_extents(g.iter)
+                if ext is not None and isinstance(g.target, ast.Name) and _is_identity_of(v.elt, g.target.id):
+                    return _row_major_comps(ext) + (st.lineno,)
+            if isinstance(v, ast.Call):
+                ext = _row_major_extents(v)
+                if ext is not None:
+                    return _row_major_comps(ext) + (st.lineno,)
             return "unmodelled", None, st.lineno
     return None
 
@@ -413,6 +502,9 @@ def lat3(ctx):
         raise AnalysisError("LAT-3 matched nothing")
 
 
+_ADJ_GUARDED: Dict[str, Dict[int, bool]] = {}
+
+
 def _adjacency(ctx, ci, cam: FuncInfo, strides, comps, total):
     """Index expressions in create_adjacency_matrix agree with get_site_num; paired stores;
     bounds tests of the right shape."""
@@ -442,11 +534,8 @@ def _adjacency(ctx, ci, cam: FuncInfo, strides, comps, total):
         if isinstance(nd, ast.Call) and isinstance(nd.func, ast.Attribute) and \
                 nd.func.attr == "get_nearest_neighbors" and nd.args:
             pos_call = nd
-    if pos_call is None or not isinstance(pos_call.args[0], ast.Tuple):
+    if pos_call is None:
         raise AnalysisError(f"{ci.qualname}.create_adjacency_matrix: neighbour call not found")
-    pos_vars = [e.id if isinstance(e, ast.Name) else None for e in pos_call.args[0].elts]
-    if None in pos_vars or len(pos_vars) != len(comps):
-        raise AnalysisError(f"{ci.qualname}.create_adjacency_matrix: unmodelled position tuple")
     # extents of each axis per the site list
     order = sorted(range(len(comps)), key=lambda k: len(comps[k][1]))
     extent: Dict[int, Optional[Mono]] = {}
@@ -457,11 +546,31 @@ def _adjacency(ctx, ci, cam: FuncInfo, strides, comps, total):
         for x in D:
             rem.remove(x)
         extent[k] = tuple(rem)
-    for k, v in enumerate(pos_vars):
-        ok = loops.get(v) == extent[k]
-        ctx.ob("LAT-3", f"{ci.qualname}.create_adjacency_matrix: axis {k} loop extent", ok,
-               f"loop variable '{v}' ranges over {loops.get(v)}, axis {k} of the site list has "
-               f"extent {extent[k]}", cam)
+    site_loop_var = None   # `for site in self.sites` / `for k, site in enumerate(self.sites)`
+    for st in ast.walk(cam.node):
+        if isinstance(st, ast.For):
+            it, tg = st.iter, st.target
+            if isinstance(it, ast.Call) and dotted(it.func) == "enumerate" and it.args and isinstance(tg, ast.Tuple) \
+                    and len(tg.elts) == 2:
+                it, tg = it.args[0], tg.elts[1]
+            if _self_attr(it) == "sites" and isinstance(tg, ast.Name):
+                site_loop_var = tg.id
+    a0 = pos_call.args[0]
+    if isinstance(a0, ast.Tuple):
+        pos_vars = [e.id if isinstance(e, ast.Name) else None for e in a0.elts]
+        if None in pos_vars or len(pos_vars) != len(comps):
+            raise AnalysisError(f"{ci.qualname}.create_adjacency_matrix: unmodelled position tuple")
+        for k, v in enumerate(pos_vars):
+            ok = loops.get(v) == extent[k]
+            ctx.ob("LAT-3", f"{ci.qualname}.create_adjacency_matrix: axis {k} loop extent", ok,
+                   f"loop variable '{v}' ranges over {loops.get(v)}, axis {k} of the site list has "
+                   f"extent {extent[k]}", cam)
+    elif isinstance(a0, ast.Name) and a0.id == site_loop_var:
+        pos_vars = None
+        ctx.ob("LAT-3", f"{ci.qualname}.create_adjacency_matrix: positions enumerate the site list", True,
+               f"for {site_loop_var} in self.sites", cam)
+    else:
+        raise AnalysisError(f"{ci.qualname}.create_adjacency_matrix: unmodelled position {ast.unparse(a0)}")
     if len(comps) == 1:
         # chain: h[r, nr] indexed by the position itself
         ctx.ob("LAT-3", f"{ci.qualname}.create_adjacency_matrix: row index is the site number", True,
@@ -478,6 +587,25 @@ def _adjacency(ctx, ci, cam: FuncInfo, strides, comps, total):
     for st in ast.walk(cam.node):
         if isinstance(st, ast.For) and isinstance(st.target, ast.Tuple):
             nb_vars = [e.id for e in st.target.elts if isinstance(e, ast.Name)]
+    nb_name = None
+    for st in ast.walk(cam.node):
+        if isinstance(st, ast.For) and isinstance(st.target, ast.Name) and st.target.id != site_loop_var:
+            roots = {n.id for n in ast.walk(st.iter) if isinstance(n, ast.Name)}
+            calls = [n for n in ast.walk(st.iter) if n is pos_call]
+            nb_src = {t.id for a in ast.walk(cam.node) if isinstance(a, ast.Assign) and any(n is pos_call for n in ast.walk(a.value))
+                      for t in a.targets if isinstance(t, ast.Name)}
+            if calls or roots & nb_src:
+                nb_name = st.target.id
+    for st in ast.walk(cam.node):
+        if isinstance(st, ast.Assign) and len(st.targets) == 1 and isinstance(st.targets[0], ast.Name):
+            for c in ast.walk(st.value):
+                if isinstance(c, ast.Call) and isinstance(c.func, ast.Attribute) and c.func.attr == "get_site_num" \
+                        and len(c.args) == 1 and isinstance(c.args[0], ast.Name):
+                    who = "site" if c.args[0].id == site_loop_var else "neighbour" if c.args[0].id == nb_name else None
+                    if who:
+                        ctx.ob("LAT-3", f"{ci.qualname}.create_adjacency_matrix: {who} index "
+                               f"'{st.targets[0].id}' = get_site_num", True, "computed by get_site_num itself",
+                               cam, st.lineno)
     for nm, expr, line in idx_forms:
         for vars_, what in ((pos_vars, "site"), (nb_vars, "neighbour")):
             if not vars_:
@@ -507,11 +635,18 @@ def _adjacency(ctx, ci, cam: FuncInfo, strides, comps, total):
         ctx.ob("PAIR-5", f"{ci.qualname}.create_adjacency_matrix: adjacency written as (i,j),(j,i) pairs",
                True, f"{len(stores)} stores paired", cam)
     # bounds tests
+    tested: Dict[int, List[ast.Compare]] = {}
     for nd in ast.walk(cam.node):
-        if isinstance(nd, ast.Compare) and len(nd.ops) == 2 and nb_vars:
+        if isinstance(nd, ast.Compare) and len(nd.ops) == 2:
             mid = nd.comparators[0]
-            if isinstance(mid, ast.Name) and mid.id in nb_vars:
+            k = None
+            if isinstance(mid, ast.Name) and nb_vars and mid.id in nb_vars:
                 k = nb_vars.index(mid.id)
+            elif isinstance(mid, ast.Subscript) and isinstance(mid.value, ast.Name) and mid.value.id == nb_name and \
+                    isinstance(mid.slice, ast.Constant) and isinstance(mid.slice.value, int):
+                k = mid.slice.value
+            if k is not None and k in extent:
+                tested.setdefault(k, []).append(nd)
                 lo_ok = isinstance(nd.left, ast.Constant) and nd.left.value == 0 and isinstance(
                     nd.ops[0], ast.LtE)
                 hi = _mono(nd.comparators[1], env)
@@ -519,6 +654,34 @@ def _adjacency(ctx, ci, cam: FuncInfo, strides, comps, total):
                 ctx.ob("LAT-4", f"{ci.qualname}.create_adjacency_matrix: bounds test on axis {k}",
                        lo_ok and hi_ok,
                        f"`{ast.unparse(nd)}` must be 0 <= n < {extent[k]}", cam, nd.lineno)
+    # which axes are tested on the path to every adjacency store
+    guarded: Dict[int, bool] = {}
+    store_nodes = [st for st in ast.walk(cam.node) if isinstance(st, ast.Assign) and
+                   isinstance(st.targets[0], ast.Subscript) and isinstance(st.targets[0].slice, ast.Tuple)]
+
+    def dominating_tests(target) -> List[ast.AST]:
+        out = []
+
+        def walk(stmts, acc):
+            for st in stmts:
+                if st is target:
+                    out.extend(acc)
+                    return True
+                for fld in ("body", "orelse", "finalbody"):
+                    sub = getattr(st, fld, None)
+                    if isinstance(sub, list) and sub and isinstance(sub[0], ast.stmt):
+                        extra = [st.test] if isinstance(st, ast.If) and fld == "body" else []
+                        if walk(sub, acc + extra):
+                            return True
+            return False
+
+        walk(cam.node.body, [])
+        return out
+
+    for k, cmps in tested.items():
+        guarded[k] = bool(store_nodes) and all(
+            any(any(n is c for n in ast.walk(tst)) for tst in dominating_tests(sn) for c in cmps) for sn in store_nodes)
+    _ADJ_GUARDED[ci.qualname] = guarded
 
 
 def _coeffs(expr: ast.AST, vars_: List[str], env) -> Optional[Dict[int, Mono]]:
@@ -721,6 +884,17 @@ def lat45(ctx):
             ctx.ob("LAT-4", f"{ci.qualname}.get_nearest_neighbors [{label}]: each axis wraps consistently",
                    not mixed and all((m,) == extent[k] for o in offs for k, m in enumerate(o[1]) if m),
                    f"moduli per axis {mods_by_axis}, extents {extent}", gnn)
+            # an axis that is not wrapped in this configuration can leave [0, extent): the adjacency builder must
+            # test that coordinate itself (a test on the flattened index aliases into the neighbouring row)
+            cam = ci.methods.get("create_adjacency_matrix")
+            unwrapped = sorted({k for o in offs for k, m in enumerate(o[1]) if m is None and o[0][k] != 0})
+            if cam is not None and unwrapped and len(extent) > 1:
+                g = _ADJ_GUARDED.get(ci.qualname, {})
+                bad = [k for k in unwrapped if not g.get(k)]
+                ctx.ob("LAT-4", f"{ci.qualname}.create_adjacency_matrix [{label}]: every coordinate that can leave its "
+                       f"axis is range-checked before a bond is stored", not bad,
+                       f"unwrapped axes {unwrapped}; " + (f"no dominating 0 <= n < extent test for axes {bad}" if bad
+                                                         else "each has a dominating per-coordinate test"), cam)
             # LAT-5 coordination number
             cn = None
             for f in ctx.p.dataclass_fields(ci.qualname):
